@@ -1,15 +1,87 @@
-"""C19  Local rewrites keep or specialise the function exactly as documented
+"""C19  Local rewrites keep or specialise the function exactly as documented.
 
-P: (deductive obligations for this property are added in vlib/props/C19.py as they are built)
-B: vlib/bounded/C19.py (bounded stand-in; never counted as proved)."""
+P (arbitrary well-formed circuit): remove_gate (succeeds exactly for an existing gate nobody uses, removes it
+   from gates, users, inputs, outputs and deletes blocks naming it; WF kept) and replace_inputs for up to two
+   labels per list (retyped to the constant, removed from the input list, every other gate untouched, WF kept,
+   exact raise conditions). rename_gate and replace_subcircuit are bounded-only in this build.
+B: vlib/bounded/C19.py (rename_gate, replace_inputs incl. input order and cofactor, remove_gate, replace_subcircuit)."""
+import z3
+
 from .. import env
-from .common import STD_TRUSTED, STD_ASSUME, run_bounded
+from ..pyvc.values import Sym, LabelSort, GT, Obj, VList
+from ..pyvc.prove import Prover
+from ..pyvc import circuit_model as CM
+from .common import new_interp, finish_refuted, canary, STD_TRUSTED, STD_ASSUME, run_bounded
+from .C02 import CircuitContract, RemoveGate, state_eq, ALL, USERS, BLK
 
-LEVEL = 'exploration'
+LEVEL = 'other'
+I = z3.IntSort()
+
+
+class ReplaceInputs(CircuitContract):
+    qualname = 'Circuit.replace_inputs'
+
+    def __init__(self, kt, kf):
+        self.kt, self.kf = kt, kf
+        self.name = f'replace_inputs/{kt}true+{kf}false'
+
+    def setup(self, it, ctx):
+        c, h = self.circuit(it, ctx)
+        S0 = h.S
+        l = z3.Const('L!in', LabelSort)
+        ctx.assume(z3.ForAll([l], z3.Implies(z3.And(S0.dom(l), S0.typ(l) == GT['INPUT']), S0.nops(l) == 0)))     # ARITY for inputs
+        ts = [z3.Const(f't{i}', LabelSort) for i in range(self.kt)]
+        fs = [z3.Const(f'f{i}', LabelSort) for i in range(self.kf)]
+        return [c, VList([Sym(x) for x in ts]), VList([Sym(x) for x in fs])], {}, {'h': h, 'S0': S0, 'ts': ts, 'fs': fs}
+
+    def post(self, it, ctx, result, st):
+        h, S0, ts, fs = st['h'], st['S0'], st['ts'], st['fs']
+        yield from self.wf_post(it, ctx, h, rank=S0.rank)
+        S1 = h.S
+        for x in ts:
+            yield ('retyped-true', z3.And(S1.dom(x), S1.typ(x) == GT['ALWAYS_TRUE'], S1.nops(x) == 0, S1.in_cnt(x) == 0, S0.typ(x) == GT['INPUT']))
+        for x in fs:
+            yield ('retyped-false', z3.And(S1.dom(x), S1.typ(x) == GT['ALWAYS_FALSE'], S1.nops(x) == 0, S1.in_cnt(x) == 0, S0.typ(x) == GT['INPUT']))
+        l, y = ctx.fresh(LabelSort, 'lf'), ctx.fresh(LabelSort, 'yf')
+        j = ctx.fresh(I, 'jf')
+        other = z3.And([l != x for x in ts + fs]) if ts + fs else z3.BoolVal(True)
+        yield ('frame/other-gates', z3.Implies(other, z3.And(S1.dom(l) == S0.dom(l), S1.typ(l) == S0.typ(l), S1.nops(l) == S0.nops(l), S1.op(l, j) == S0.op(l, j),
+                                                             S1.opc(l, y) == S0.opc(l, y), S1.in_cnt(l) == S0.in_cnt(l))))
+        yield ('frame/users-outputs-blocks', state_eq(ctx, S1, S0, USERS + ['out_n', 'out_elem', 'out_cnt'] + BLK))
+        yield ('inputs-count', S1.in_n == S0.in_n - len(ts + fs))
+        if len(ts + fs) > 1:
+            yield ('labels-were-distinct', z3.Distinct(*(ts + fs)))
+
+    def on_raise(self, it, ctx, exc, st):
+        n = self.exc_name(exc)
+        S0 = st['S0']
+        labels = st['ts'] + st['fs']
+        if n == 'GateDoesntExistError':
+            yield ('raise/some-label-absent', z3.Or([z3.Not(S0.dom(x)) for x in labels]), {'raised': n})
+        elif n == 'GateNotInputError':
+            dup = z3.Or([labels[a] == labels[b] for a in range(len(labels)) for b in range(a + 1, len(labels))]) if len(labels) > 1 else z3.BoolVal(False)
+            yield ('raise/some-label-not-input-or-repeated', z3.Or(dup, z3.Or([z3.And(S0.dom(x), S0.typ(x) != GT['INPUT']) for x in labels])), {'raised': n})
+        else:
+            yield ('no-raise', z3.BoolVal(False), {'raised': n, 'witness': 'raises-' + n})
 
 
 def run(rep):
     quick = env.TIER != 'thorough'
-    rep.trusted_base = list(STD_TRUSTED)
+    rep.trusted_base = list(STD_TRUSTED) + ['abstract circuit model vlib/pyvc/circuit_model.py', 'proof rule R2: retyping an input to a constant yields the cofactor (DAG induction over unchanged gate equations)']
+    for a in STD_ASSUME:
+        rep.assume(a)
+    rep.assume('rename_gate and replace_subcircuit have no deductive obligation in this build (bounded stand-in only); input ORDER after replace_inputs is bounded-only (the model keeps the multiset of inputs)')
+    it = new_interp()
+    pv = Prover(rep, it, 'C19')
+    cs = [RemoveGate()] + [ReplaceInputs(a, b) for a, b in ((1, 0), (0, 1), (1, 1), (2, 0), (0, 2), (2, 1), (0, 0))]
+    for c in cs:
+        it.loop_specs.clear()
+        it.contracts.clear()
+        pv.run_contract(c)
+    x = z3.Const('x', LabelSort)
+    f = z3.Function('incnt', LabelSort, z3.IntSort())
+    canary(rep, pv, 'C19/canary/remove-keeps-count', [f(x) >= 1], f(x) - 1 == f(x))
+    refuted = pv.discharge(env.NPROC)
+    finish_refuted(rep, pv, refuted)
     run_bounded(rep, 'C19', quick)
-    rep.extra['explanation'] = 'bounded stand-in only in this build'
+    rep.extra['explanation'] = 'remove_gate and replace_inputs proved on an arbitrary well-formed circuit from the real source; rename_gate / replace_subcircuit: bounded stand-in.'
